@@ -289,7 +289,8 @@ PROPS.update({
              'struct, large (>4 kB, several encoder chunks), slice, nil and unmarshalable values, PrettyPrint toggles) over a '
              'counting writer whose k-th Write call accepts a scripted number of bytes and may fail, optionally with a gzip '
              'CompressingResponseWriter in between; driven directly (NewResponse) or by a route function inside a container with '
-             'StatusCode()/ContentLength() read by a container filter after the handler; 65% set the status once first, 15% only '
+             'StatusCode()/ContentLength() read by a container filter after the handler, or (15%, Write/WriteHeader only) by a plain '
+             'http.Handler registered with HandleWithFilter and reached through ServeHTTP; 65% set the status once first, 15% only '
              'write, 20% arbitrary (mostly outside the premise); distinct = distinct case text; non-trivial = non-empty history '
              'inside the premise',
         trusted_base=['encoding/json and encoding/xml: what they hand to Response.Write (chunks, or failure) is an input computed '
